@@ -500,6 +500,76 @@ theorem late_request_collects (s : Subn) (k r : Nat) (hc : s.state = .closed)
   simp [step, publish, publishWith, maxPublishRequests, sessTickWith, subTickWith, updateStateWith,
     handle, pairLoop, readyToRemove]
 
+/-! ### Every history -/
+
+theorem cnt_counted (z : Sess) (e w : Bool) : cnt z true e = counted z (.timer e w) := by
+  unfold cnt counted
+  cases z.sub <;> simp
+
+/-- **Never before.**  In EVERY history (any interleaving of timer ticks, publish requests and
+writes, whatever the subscription does with them), a subscription with lifetime count `L` is not
+closed or removed before `L - 1` publishing intervals have elapsed since it started. -/
+theorem not_closed_before (L K : Nat) (en it : Bool) (ops : List Op) (z : Sess) (g : Ghost)
+    (outs : List Resp) (h : run (start L K en it) ⟨0, 0⟩ ops = some (z, g, outs))
+    (hc : z.sub = none ∨ ∃ s, z.sub = some s ∧ s.state = .closed) : L ≤ g.n + 1 := by
+  have key : ∀ (ops : List Op) (z0 : Sess) (g0 : Ghost) (z : Sess) (g : Ghost) (outs : List Resp),
+      run z0 g0 ops = some (z, g, outs) → NB L z0 g0.n → NB L z g.n := by
+    intro ops
+    induction ops with
+    | nil =>
+      intro z0 g0 z g outs h hi
+      simp only [run, Option.some.injEq, Prod.mk.injEq] at h
+      obtain ⟨rfl, rfl, _⟩ := h
+      exact hi
+    | cons op ops ih =>
+      intro z0 g0 z g outs h hi
+      simp only [run] at h
+      split at h
+      · cases h
+      · rename_i z1 out1 hstep
+        split at h
+        · cases h
+        · rename_i z2 g2 outs2 hrun
+          simp only [Option.some.injEq, Prod.mk.injEq] at h
+          obtain ⟨rfl, rfl, _⟩ := h
+          refine ih z1 _ _ _ _ hrun ?_
+          cases op with
+          | timer e w =>
+            simp only [step] at hstep
+            have hi' : NB L (if w then write z0 else z0) g0.n := by
+              cases w
+              · exact hi
+              · exact write_nb L z0 g0.n hi
+            have := sessTick_nb _ L _ _ true e _ g0.n hstep hi'
+            have hcn : cnt (if w = true then write z0 else z0) true e = counted z0 (.timer e w) := by
+              cases w
+              · exact cnt_counted z0 e false
+              · simp only [if_true, write_cnt]; exact cnt_counted z0 e true
+            rw [hcn] at this
+            simpa [gnext] using this
+          | publish r =>
+            have hg : (gnext g0 z0 (.publish r) out1).n = g0.n := by simp [gnext, counted]
+            rw [hg]
+            have hp := publish_nb current L z0 r g0.n hi
+            simp only [step, publish] at hstep
+            split at hstep
+            · rename_i z' out' hpe
+              simp only [Option.some.injEq, Prod.mk.injEq] at hstep
+              obtain ⟨rfl, _⟩ := hstep
+              rw [hpe] at hp; exact hp
+            · rename_i z' out' hpe
+              simp only [Option.some.injEq, Prod.mk.injEq] at hstep
+              obtain ⟨rfl, _⟩ := hstep
+              rw [hpe] at hp; exact hp
+            · cases hstep
+  have h0 : NB L (start L K en it) 0 := by
+    simp [NB, start, mk]
+  have := key ops _ _ _ _ _ h h0
+  rcases hc with hc | ⟨s, hs, hcl⟩
+  · simpa [NB, hc] using this
+  · simp only [NB, hs] at this
+    exact this.2.2 hcl
+
 /-! ### Non-vacuity, and the defects (repaired or recorded) -/
 
 def stepWith (v : Variant) (z : Sess) : Op → Option (Sess × List Resp)
